@@ -68,6 +68,7 @@ def _distribution(chk, results):
         d.setdefault('ensemble_depth', {})
         d['ensemble_depth'][str(depth)] = d['ensemble_depth'].get(str(depth), 0) + 1
         d['nested_exceptions'] = d.get('nested_exceptions', 0) + n - 1
+        d['shared_object_entries'] = d.get('shared_object_entries', 0) + res['info'].get('shared', 0)
         d.setdefault('classes', {})
         for c, k in res['info']['classes'].items():
             d['classes'][c] = d['classes'].get(c, 0) + k
@@ -79,7 +80,7 @@ def _count(tree):
     n, d = 1, 1
     for ent in tree['ens']:
         if ent['t'] != 'val':
-            a, b = _count(ent['e'])
+            a, b = _count(ent['e']) if 'e' in ent else (1, 0)
             n += a
             d = max(d, 1 + b)
     return n, d
